@@ -283,17 +283,21 @@ mutual
       checks e T ++ chk .kindUnion (unionOk acc.returns a.1.returns) ++
         checksSeq es a.2 (acc.step a.1)
 
+  /-- array elements: an element that may `return` is outside the theorem (the fold of `returns` in
+      `Array::type_info` is not followed) -/
   def checksArr : Exprs → TState → ArrAcc → List Chk
-    | .nil, _, acc => chk .kindUnion (acc.tds.all fun t => t.returns.isNever)
+    | .nil, _, _ => []
     | .cons e es, T, acc =>
       let a := typeInfo e T
-      checks e T ++ checksArr es a.2 (acc.step a.1.upgradeUndefined)
+      checks e T ++ chk .kindUnion a.1.returns.isNever ++
+        checksArr es a.2 (acc.step a.1.upgradeUndefined)
 
   def checksObj : KExprs → TState → ObjAcc → List Chk
-    | .nil, _, acc => chk .kindUnion acc.returns.isNever
+    | .nil, _, _ => []
     | .cons k e kes, T, acc =>
       let a := typeInfo e T
-      checks e T ++ checksObj kes a.2 (acc.step k a.1.upgradeUndefined)
+      checks e T ++ chk .kindUnion a.1.returns.isNever ++
+        checksObj kes a.2 (acc.step k a.1.upgradeUndefined)
 end
 
 /-- no failed side condition (`Chk.nan` is a marker, not a failure) -/
